@@ -9,6 +9,7 @@ sys.path.insert(0, ROOT)
 from vcheck.report import Report  # noqa: E402
 
 DECODER_PROPS = ("C16", "C17", "C18", "C19")
+TX_PROPS = ("C01", "C02", "C03", "C04", "C05", "C06", "C07", "C09", "C10", "C11", "C12", "C13", "C14", "C15")
 
 
 def main():
@@ -22,6 +23,8 @@ def main():
     rep = Report(a.prop, a.tier, seed, "./check %s --tier %s" % (a.prop, a.tier))
     if a.prop in DECODER_PROPS:
         from vcheck import decoder_props as mod
+    elif a.prop in TX_PROPS:
+        from vcheck import tx_props as mod
     else:
         print("property %s is not claimed (see MANIFEST.json not_applicable)" % a.prop)
         return 3
